@@ -179,7 +179,7 @@ def gen_desc(rng):
                 else:
                     sts = pargen.gen_upstream_stage(rng, a, sid, True)
                     for st in sts:
-                        if st['op'] in ('concat', 'zip'):
+                        if st['op'] in ('concat', 'zip', 'intersperse'):
                             st['offset'] = offset
                             offset += 100
                 b = a
